@@ -147,3 +147,18 @@ class LinterLint:
 
     def ensures_directory(self, path, rules, result, old):
         return implies(fs_exists(path) and fs_is_dir(path), result == filtered(directory(old.self.orchestrator, path), rules))
+
+
+# ------------------------------------------------------------------ configuration discovery of the library entry point
+from contracts.c09_paths import path_of_str, path_div  # noqa: E402
+
+
+@contract(API + "Linter._resolve_config_path", props=["C10", "C05"], types=dict(self=LinterT, config_file=Opt(Str), yaml_path=PathT),
+          returns=PathT)
+class ResolveConfigPath:
+    def value(self, config_file):
+        # an explicit file IS the configuration; otherwise <root>/.thailint.yaml if it exists, else <root>/.thailint.json
+        # (the same discovery order as Orchestrator.__init__ for the CLI: .thailint.yaml -> .thailint.json)
+        return path_of_str(config_file) if config_file is not None and len(config_file) > 0 else \
+            (path_div(self.project_root, ".thailint.yaml") if fs_exists(path_div(self.project_root, ".thailint.yaml"))
+             else path_div(self.project_root, ".thailint.json"))
